@@ -47,7 +47,18 @@ def _spec_classes():
     return _SPEC
 
 
+class KeyFault(Exception):
+    pass
+
+
+KEYFN = {"calls": 0, "arm": None}
+
+
 def first(t):
+    KEYFN["calls"] += 1
+    if KEYFN["arm"] is not None and KEYFN["calls"] == KEYFN["arm"]:
+        KEYFN["arm"] = None
+        raise KeyFault("key function raised (injected)")
     return t[0]
 
 
@@ -273,6 +284,9 @@ def grows(op, n):
     if name in ("extend", "iadd"):
         return len(op[1])
     return 0
+
+
+MUTATING = ("append", "insert", "setitem_i", "setitem_k", "delitem_i", "delitem_k", "pop", "pop_i", "remove", "reverse", "clear", "extend", "iadd")
 
 
 class Raised:
@@ -714,6 +728,17 @@ def run_case(case):
     u = Universe(case["universe"], case["typed"], case.get("k", 4))
     pool, canon, l, m = build(u, case["history"])
     out = []
+    if case.get("keyfn_fault"):
+        pre = observe_impl(l, u, canon)
+        KEYFN["calls"], KEYFN["arm"] = 0, case["keyfn_fault"]
+        got, l2 = apply_impl(l, case["op"], u, pool)
+        KEYFN["arm"] = None
+        if isinstance(got, Raised):
+            post = observe_impl(l2, u, canon)
+            if post != pre:
+                out.append(violation(PROP, sig_for(u, case["op"], "changed_on_keyfn_fault", kth=min(case["keyfn_fault"], 3)),
+                                     {"before": pre["list"], "after": post["list"]}, case))
+        return out
     step(u, pool, canon, l, m, case["op"], case, out)
     return out
 
@@ -745,6 +770,27 @@ def explore(shard):
                     C.viol(v)
                 if outcome == "skip":
                     continue
+                if ok and u.keyfn is first and shard.get("keyfn_faults", True) and op[0] in MUTATING:
+                    # E2: the user key function raising at its k-th invocation during this operation
+                    pool0, canon0, l0, m0 = build(u, hist)
+                    KEYFN["calls"] = 0
+                    apply_impl(l0, op, u, pool0)
+                    ncalls = KEYFN["calls"]
+                    for kth in range(1, ncalls + 1):
+                        pool1, canon1, l1, m1 = build(u, hist)
+                        pre1 = observe_impl(l1, u, canon1)
+                        KEYFN["calls"], KEYFN["arm"] = 0, kth
+                        got1, l1b = apply_impl(l1, op, u, pool1)
+                        KEYFN["arm"] = None
+                        C.inc("evaluations")
+                        C.inc("keyfn_fault_runs")
+                        if isinstance(got1, Raised):
+                            post1 = observe_impl(l1b, u, canon1)
+                            if post1 != pre1:
+                                C.viol(violation(PROP, sig_for(u, op, "changed_on_keyfn_fault", kth=min(kth, 3)),
+                                                 {"before": pre1["list"], "after": post1["list"], "after_keys": post1["keys"], "raised": repr(got1.exc)[:80]},
+                                                 dict(case, keyfn_fault=kth)))
+                                break
                 if ok:
                     C.inc("traces_validated_against_impl")
                 if outcome != "ok" or [canon.item(x) for x in m2] != [canon.item(x) for x in m]:
